@@ -198,11 +198,15 @@ theorem processParts_one {n : List Char} (hn : NameOk n) :
 theorem kName_token : ∀ c ∈ kName, isTokenCh c = true := by decide
 theorem kFilename_token : ∀ c ∈ kFilename, isTokenCh c = true := by decide
 
+/-- the `filename` option, when there is one -/
+def filenameOpt : Option (List Char) → List (List Char × List Char)
+  | none => []
+  | some x => [(kFilename, x)]
+
 /-- **parse_options_header on the encoder's Content-Disposition.** -/
 theorem parseOptions_disposition_lemma (n : List Char) (f : Option (List Char)) (hn : NameOk n)
     (hf : ∀ x, f = some x → NameOk x) :
-    parseOptionsHeader (dispositionValue n f) =
-      .ok (kFormData, (kName, n) :: (match f with | none => [] | some x => [(kFilename, x)])) := by
+    parseOptionsHeader (dispositionValue n f) = .ok (kFormData, (kName, n) :: filenameOpt f) := by
   rcases disposition_split n f with ⟨h1, h2⟩
   unfold parseOptionsHeader
   simp only [h1, h2]
@@ -219,7 +223,7 @@ theorem parseOptions_disposition_lemma (n : List Char) (f : Option (List Char)) 
     rw [hcp]
     have := processParts_one hn
     simp only [List.cons_append] at this ⊢
-    rw [this]
+    rw [this]; rfl
   | some x =>
     have hx := hf x rfl
     have key : ∀ fuel, collectParts (fuel + 2) (dispositionRest n (some x)) =
@@ -247,6 +251,6 @@ theorem parseOptions_disposition_lemma (n : List Char) (f : Option (List Char)) 
     rw [hcp]
     have := processParts_two hn hx
     simp only [List.cons_append] at this ⊢
-    rw [this]
+    rw [this]; rfl
 
 end Wz.FormOptions
